@@ -119,9 +119,16 @@ class Server(utils.EventEmitter):
                 channel.connection.handle,
                 channel.source_cid,
             )
-            channel.sink = lambda pdu: self.on_gatt_pdu(
-                channel, att.ATT_PDU.from_bytes(pdu)
-            )
+
+            def on_pdu(pdu: bytes) -> None:
+                try:
+                    att_pdu = att.ATT_PDU.from_bytes(pdu)
+                except Exception:
+                    self.on_invalid_gatt_pdu(channel, pdu)
+                    return
+                self.on_gatt_pdu(channel, att_pdu)
+
+            channel.sink = on_pdu
 
         return self.device.create_l2cap_server(
             spec or l2cap.LeCreditBasedChannelSpec(psm=att.EATT_PSM), handler=on_channel
@@ -575,6 +582,23 @@ class Server(utils.EventEmitter):
         self.subscribers.pop(bearer, None)
         self.indication_semaphores.pop(bearer, None)
         self.pending_confirmations.pop(bearer, None)
+
+    def on_invalid_gatt_pdu(self, bearer: att.Bearer, pdu: bytes) -> None:
+        '''
+        Called when a PDU received on a bearer cannot be parsed.
+        A malformed request is answered with an Error Response (so that the client
+        does not wait for a response until it times out), anything else is ignored.
+        '''
+        logger.warning(
+            color(f'--- Invalid ATT PDU from {_bearer_id(bearer)}: ', 'red') + pdu.hex()
+        )
+        if pdu and pdu[0] in att.ATT_REQUESTS:
+            response = att.ATT_Error_Response(
+                request_opcode_in_error=pdu[0],
+                attribute_handle_in_error=0x0000,
+                error_code=att.ATT_INVALID_PDU_ERROR,
+            )
+            self.send_response(bearer, response)
 
     def on_gatt_pdu(self, bearer: att.Bearer, att_pdu: att.ATT_PDU) -> None:
         logger.debug(f'GATT Request to server: {_bearer_id(bearer)} {att_pdu}')
